@@ -185,9 +185,9 @@ def exec_method_inv(ctx_state):
     def inv(c):
         m, params, kw0, name, kind = ctx_state["setup"]
         st = c.st
-        npos: SeqV = st.loc["normal_pos"]
-        kwargs: DictV = st.loc["kwargs"]
-        vp = st.loc["var_pos"]
+        npos: SeqV = c.loc("normal_pos")
+        kwargs: DictV = c.loc("kwargs")
+        vp = c.loc("var_pos")
         slot = st.loc["$slot"].arrs[0]
         pidx = st.loc["$pidx"].arrs[0]
         i = c.i
